@@ -53,7 +53,9 @@ def strategy_(draw, tier):
             "uid": draw(st.sampled_from([1000, 0])), "kind": draw(st.sampled_from(["file", "tree"])),
             # well-formed neighbours in the same trash dir (state kept between entries must not
             # leak into the reading of the entry under test) and a readdir permutation
-            "neighbours": draw(st.sampled_from([0, 0, 1, 2, 3])), "perm": draw(st.integers(0, 50))}
+            "neighbours": draw(st.sampled_from([0, 0, 1, 2, 3])), "perm": draw(st.integers(0, 50)),
+            # spelling of the --trash-dir argument (only for the trash_dir kind)
+            "td_spelling": draw(st.sampled_from(["abs", "abs", "slash", "rel", "dotrel", "dslash"]))}
 
 
 def strategy(tier):
@@ -156,7 +158,10 @@ def run_case(case):
     out = Outcome()
     tw, ent, text, loc_root, tdir = make(case)
     tk = case["tk"]
-    td_opt = ["--trash-dir", tdir] if tk == "trash_dir" else []
+    sp = case.get("td_spelling", "abs")
+    td_arg = {"abs": tdir, "slash": tdir + "/", "rel": tdir.lstrip("/"), "dotrel": "./" + tdir.lstrip("/"),
+              "dslash": tdir.replace("/custom", "//custom")}[sp]   # (cwd is '/')
+    td_opt = ["--trash-dir", td_arg] if tk == "trash_dir" else []
     spec = tw.spec(cwd="/")
     dev = sorted(set([case["header"], case["eol"], case["esc"], case["form"], case["date"]] +
                      ["dup_path:%s" % case["dup_path"], "dup_date:%s" % case["dup_date"]] +
@@ -275,7 +280,8 @@ def run_case(case):
                 out.fail("spec_date", "commands read %r, the spec reading is %r (info %r)" % (
                     l_date, sd, text), **tags)
     if dev:
-        out.key = [dev, tk, case["form"], min(case.get("neighbours", 0), 2)]
+        out.key = [dev, tk, case["form"], min(case.get("neighbours", 0), 2),
+                   case.get("td_spelling", "abs") if tk == "trash_dir" else "-"]
         out.sample = {"trash_dir": tdir, "info": text.decode("latin-1"), "listed": [l_date, l_path],
                       "restored_to": landed}
     return out
